@@ -460,6 +460,9 @@ func c05Make(r *Rng, n, pos, kind, when int, isab bool) Sx {
 			if r.Chance(1, 6) {
 				ops = append(ops, L(A("w"), L(A("st"), I([]int{202, 201}[r.Intn(2)]))))
 			}
+			if r.Chance(1, 8) { // an error is recorded (no OnError handler is installed): it changes nothing about the abort
+				ops = append(ops, L(A("ae"), I(id)))
+			}
 			if callsNext {
 				ops = append(ops, L(A("next")))
 			}
